@@ -525,18 +525,27 @@ def rule_defaultclose(P) -> RuleResult:
             executed.append((a, dict(k)))
             return None
         if f == 'shlex.split':
-            return SList(['NAME'])
-        if f.endswith('queries.get'):
-            return QUERY
-        if f.endswith('queries.items'):
-            return SList([T('tuple', ('NAME', QUERY))])
+            import shlex as _shlex
+            return SList(_shlex.split(a[0])) if a and isinstance(a[0], str) else SList(['NAME'])
         if f in ('print', 'sorted') or f.endswith('.error') or f.endswith('.join'):
             return a[0] if f == 'sorted' and a else None
+        return NotImplemented
+
+    def on_attr_run(base, attr, ex):
+        # the registry of named queries; the name of a query directive is free text: `.run *` runs every query whatever its name
+        # looks like, `.run NAME` takes one shell word
+        if base == SHELL and attr == 'queries':
+            return SList([('NAME', QUERY), ('expenses to date', QUERY)], kind='dict')
         return NotImplemented
     good = True
     for arg in ('NAME', '*'):
         executed.clear()
-        Engine(P, on_call=on_call_run).paths(run, {'self': SHELL, run.params[1]: arg})
+        Engine(P, on_call=on_call_run, on_attr=on_attr_run).paths(run, {'self': SHELL, run.params[1]: arg})
+        if len(executed) != (1 if arg == 'NAME' else 2):
+            good = False
+            res.fail(f'{shell.fq}.do_run', 'defaultclose:run', f'.run {arg} must execute {"the named query" if arg == "NAME" else "every named query, "
+                     "whatever its name (a name is free text: `expenses to date`)"}; it executes {len(executed)} of them', loc(run))
+            continue
         if not executed or any(a != (_attr(QUERY, 'query_string'),) or kw.get('default_close_date', None) != _attr(QUERY, 'date') or len(kw) != 1
                                for a, kw in executed):
             good = False
